@@ -7,11 +7,13 @@ import (
 	"sort"
 	"strings"
 	"sync"
+	"sync/atomic"
 	"testing"
 	"time"
 
 	"github.com/twmb/franz-go/pkg/kgo"
 	"github.com/twmb/franz-go/pkg/kmsg"
+	"github.com/twmb/franz-go/pkg/kversion"
 	"pgregory.net/rapid"
 
 	"verif/h/bubble"
@@ -46,7 +48,10 @@ type plan struct {
 	// DropMod makes the stage a filter: inputs whose key is divisible by DropMod produce no output
 	// (1 = every input is dropped, so every transaction only commits offsets; 0 = no filtering).
 	DropMod int64
-	Steps   []step
+	// Old pins the members to the protocol level of a 2.8 client (OffsetFetch v7 and below, no
+	// KIP-890 part 2): the broker answers through its down-conversion paths.
+	Old   bool
+	Steps []step
 }
 
 func genPlan(t *rapid.T) plan {
@@ -55,8 +60,9 @@ func genPlan(t *rapid.T) plan {
 		PollMax: rapid.SampledFrom([]int{0, 2, 5}).Draw(t, "pollmax"), Work: rapid.SampledFrom([]time.Duration{0, 20 * time.Millisecond, 400 * time.Millisecond}).Draw(t, "work")}
 	p.PollFirst = rapid.Bool().Draw(t, "pollfirst")
 	p.DropMod = rapid.SampledFrom([]int64{0, 0, 0, 2, 3, 1}).Draw(t, "dropmod")
+	p.Old = rapid.IntRange(0, 3).Draw(t, "old") == 0
 	n := rapid.IntRange(2, 16).Draw(t, "nsteps")
-	kinds := []string{"join", "join", "leave", "restart", "netfault", "netfault", "netfault", "killall", "append", "append", "sleep"}
+	kinds := []string{"join", "join", "leave", "restart", "netfault", "netfault", "netfault", "killall", "append", "append", "sleep", "stallend"}
 	for i := 0; i < n; i++ {
 		s := step{Delay: rapid.SampledFrom([]time.Duration{0, 10 * time.Millisecond, 300 * time.Millisecond, 2 * time.Second}).Draw(t, "delay"), Kind: rapid.SampledFrom(kinds).Draw(t, "kind")}
 		if i == 0 {
@@ -81,7 +87,7 @@ type member struct {
 func TestExactlyOncePipeline(t *testing.T) {
 	rapid.Check(t, func(rt *rapid.T) {
 		p := genPlan(rt)
-		var faultsBetween, restarts, rebalances, offsetChecks, produceErrAborts int
+		var faultsBetween, restarts, rebalances, offsetChecks, produceErrAborts, stalledEnds int
 		drained := false
 		bubble.Run(t, rt, func(e *bubble.Env) {
 			e.StartCluster(bubble.ClusterOpts{Brokers: p.Brokers, Topics: map[string]int32{"in": p.InParts, "out": p.OutParts}})
@@ -191,6 +197,9 @@ func TestExactlyOncePipeline(t *testing.T) {
 							kgo.HeartbeatInterval(300*time.Millisecond), kgo.SessionTimeout(15*time.Second), kgo.RebalanceTimeout(20*time.Second), kgo.TransactionTimeout(40*time.Second),
 							kgo.FetchMaxWait(300*time.Millisecond), kgo.RecordPartitioner(kgo.ManualPartitioner()), kgo.ProducerLinger(0),
 							kgo.OnPartitionsRevoked(func(context.Context, *kgo.Client, map[string][]int32) { mu.Lock(); rebalances++; mu.Unlock() }))
+						if p.Old {
+							opts = append(opts, kgo.MaxVersions(kversion.V2_8_0()))
+						}
 						sess, err := kgo.NewGroupTransactSession(opts...)
 						if err != nil {
 							panic("VERIF-INFRA: NewGroupTransactSession: " + err.Error())
@@ -307,6 +316,7 @@ func TestExactlyOncePipeline(t *testing.T) {
 				}
 				e.Log.Add("member-stopped", int64(slot), m.name, nil, 0, 0)
 			}
+			var healed atomic.Bool
 			for _, s := range p.Steps {
 				time.Sleep(s.Delay)
 				switch s.Kind {
@@ -323,6 +333,20 @@ func TestExactlyOncePipeline(t *testing.T) {
 					if s.Key == 26 || s.Key == 28 {
 						faultsBetween++
 					}
+				case "stallend":
+					// the coordinator sits on the next EndTxn for longer than the session timeout (and
+					// less than the transaction timeout): the member that sent it is evicted while its
+					// transactional offset commit is pending, and whoever takes its partitions over
+					// has to wait for the outcome before it may fetch offsets
+					d := 18*time.Second + time.Duration(s.N)*3*time.Second
+					e.Cluster.ControlKey(int16(kmsg.EndTxn), func(kmsg.Request) (kmsg.Response, error, bool) {
+						if !healed.Load() { // an unused stall must not outlive the faulty phase (nor the bubble)
+							e.Cluster.SleepControl(func() { time.Sleep(d) })
+						}
+						return nil, nil, false
+					})
+					stalledEnds++
+					e.Log.Add("stallend", int64(d/time.Second), "", nil, 0, 0)
 				case "killall":
 					e.Net.KillAll()
 					e.Log.Add("killall", 0, "", nil, 0, 0)
@@ -334,6 +358,7 @@ func TestExactlyOncePipeline(t *testing.T) {
 			}
 			// heal and drain: run until the group's committed offsets reach the end of every input partition
 			e.Net.ClearRules()
+			healed.Store(true)
 			live := false
 			for _, m := range members {
 				if m != nil {
@@ -460,6 +485,12 @@ func TestExactlyOncePipeline(t *testing.T) {
 			ev.Class("session-restarted-after-End-error")
 		}
 		ev.Class("balancer:" + p.Balancer)
+		if p.Old {
+			ev.Class("members-pinned-to-2.8-protocol-level")
+		}
+		if stalledEnds > 0 {
+			ev.Class("EndTxn-held-by-the-coordinator-beyond-the-session-timeout")
+		}
 		ev.Class(fmt.Sprintf("filter-dropmod:%d", p.DropMod))
 		if produceErrAborts > 0 {
 			ev.Class("transaction-aborted-by-application-after-produce-error")
